@@ -101,11 +101,36 @@ func verdictTimeout(m *kit.Member, tm hotstuff.TimeoutMsg) string {
 	return s + verdictSync(m, tm.SyncInfo)
 }
 
-func verdictProposal(m *kit.Member, p hotstuff.ProposeMsg) bool {
-	if p.AggregateQC != nil && p.AggregateQC.Sig() == nil {
-		return false
+// verdictProposal: the verdicts on the block's certificate and on the aggregate certificate, and the combined
+// VerifyAnyQC verdict where that is a function of the proposal. It is not when the aggregate certificate lists two
+// different valid certificates of one view (VerifyAggregateQC then picks "the highest" by map iteration order and
+// VerifyAnyQC compares the block's certificate with whichever was picked), nor when entry views overflow the
+// int-difference comparator used for sorting: such proposals have no single verdict even without any encoding.
+func verdictProposal(m *kit.Member, p hotstuff.ProposeMsg) string {
+	s := fmt.Sprintf("qc=%v ", verdictQC(m, p.Block.QuorumCert()))
+	if p.AggregateQC == nil {
+		return s + fmt.Sprintf("any=%v", m.Auth.VerifyAnyQC(&p) == nil)
 	}
-	return m.Auth.VerifyAnyQC(&p) == nil
+	if p.AggregateQC.Sig() == nil {
+		return s + "agg=nosig"
+	}
+	s += fmt.Sprintf("agg=%v ", verdictAgg(m, *p.AggregateQC))
+	var valid []hotstuff.QuorumCert
+	for _, i := range sortedIDs(p.AggregateQC.QCs()) {
+		qc := p.AggregateQC.QCs()[i]
+		if qc.View() >= 1<<62 {
+			return s + "any=order-dependent"
+		}
+		if verdictQC(m, qc) {
+			for _, o := range valid {
+				if o.View() == qc.View() && !o.Equals(qc) {
+					return s + "any=order-dependent"
+				}
+			}
+			valid = append(valid, qc)
+		}
+	}
+	return s + fmt.Sprintf("any=%v", m.Auth.VerifyAnyQC(&p) == nil)
 }
 
 // ---------------------------------------------------------------------------------------------------------------------
@@ -158,7 +183,7 @@ func roundTripProp(c Case) common.Result {
 		y.ID = sender.ID
 		diff = diffProposal("proposal", x, y)
 		vx, vy := verdictProposal(recv, x), verdictProposal(recv, y)
-		verdict = fmt.Sprint(vx)
+		verdict = vx
 		if diff == "" && vx != vy {
 			diff = "proposal.verdict"
 		}
@@ -277,7 +302,7 @@ func roundTripProp(c Case) common.Result {
 		switch {
 		case strings.HasPrefix(t, "+"), strings.HasPrefix(t, "-"), strings.HasPrefix(t, "batch="), strings.HasPrefix(t, "ts"), strings.HasPrefix(t, "x:ts"),
 			strings.Contains(t, "unsorted"), strings.Contains(t, ".entries="):
-			if i := strings.Index(t, "/"); i > 0 && strings.Contains(t, "unsorted") {
+			if strings.Contains(t, "unsorted") {
 				t = "signers-unsorted"
 			}
 			classes = append(classes, "part:"+t)
@@ -290,6 +315,8 @@ func verdictClass(v string) string {
 	switch {
 	case v == "true" || v == "false":
 		return v
+	case strings.Contains(v, "any="):
+		return v[strings.Index(v, "any="):]
 	case strings.Contains(v, "false") && strings.Contains(v, "true"):
 		return "mixed"
 	case strings.Contains(v, "false"):
